@@ -312,7 +312,7 @@ def h_layer_reproduces(H, kind, backend, wt, p_in, p_out, p_w, clip_in, clip_out
     err = torch.abs(acc) * torch.abs(s_w * s_x / s_y - sc / 2 ** layer.shift.flatten()[0])
     d = torch.abs(y_int + off_out - img)
     H.ensure('int-layer:integer-image-of-the-fake-quantized-output-within-one-level-plus-approximation-bound',
-             H.and_(*[H.le(a, H.add(1, b)) for a, b in zip(H.elements(d), H.elements(err))]))
+             H.and_(*[H.le(a, H.add(1 + 1e-6, b)) for a, b in zip(H.elements(d), H.elements(err))]))
 
 
 class _IntChain(nn.Module):
@@ -409,7 +409,7 @@ def h_integerize_whole(H, backend, p_a, p_w):
         err = torch.abs(acc) * torch.abs(s_w * s_i / s_o - sc / 2 ** layer.shift.flatten()[0])
         d = torch.abs(y_int + off - torch.round(fq_out[nme] / s_o))
         H.ensure('integerize:each-layer-reproduces-the-integer-image-of-its-counterpart-within-one-level-plus-bound',
-                 H.and_(*[H.le(a, H.add(1, b)) for a, b in zip(H.elements(d), H.elements(err))]))
+                 H.and_(*[H.le(a, H.add(1 + 1e-6, b)) for a, b in zip(H.elements(d), H.elements(err))]))
     # the integer network as a whole runs on the integer image of the input and returns the logits' image
     y_i = integer(H.scalar_tensor(x_int).reshape(1, 1, 1, 1) * 1.0 - off if backend == 'maupiti' else x)
     H.observe('y_int_net', y_i)
@@ -427,8 +427,9 @@ PROPERTY = {
                     'ranges, last-layer logits clauses (weights and clipping values from concrete tables); integerize_arch on a whole exported MPS model '
                     '(integerize-whole: real MPS(), export(), integerize_arch(), remove_relu, remove_inp_quantizer; graph rewrite, quantizer identity per layer, '
                     'per-layer reproduction inside the network for every input image)',
-        not_decided=['the per-layer statement for ALL weight values: layer-reproduces / integerize-whole take weights and clipping values from concrete tables (the '
-                     'selection loop of _integer_approximation forks per candidate shift: 24 / 32 shifts x channels on symbolic scales); the input is symbolic',
+        not_decided=['the per-layer statement for ALL weight values with the DEFAULT selection loop (24 / 32 candidate shifts x channels fork on symbolic scales): layer-reproduces / '
+                     'integerize-whole take weights and clipping values from concrete tables with the input symbolic; contracts/c14_sym.py (layer-reproduces-symbolic) discharges the MATCH statement for ALL real '
+                     'weights, biases and integer inputs with one channel and a short selection loop (scale_bit <= 8, shift_pos <= 4 handed to the real constructor); MAUPITI hard-codes 16 x 32',
                      'architectures other than conv-relu-conv-relu-flatten-linear for integerize_arch (sums, pooling, shared quantizers across branches)',
                      'dilated MATCH convolutions inside layer-reproduces (the axis-1 defect is a known finding of pad-dilation)',
                      'float32 rounding of the integer arithmetic carried in float tensors (A-real)'],
